@@ -30,6 +30,9 @@ THEOREMS = [
     "RedunModel.C29.output_leaves",
     "RedunModel.C29.input_args_shape",
     "RedunModel.C29.second_prepare_keeps_command",
+    "RedunModel.C29.no_command_iff_same_string",
+    "RedunModel.C29.distinct_paths_staged_in",
+    "RedunModel.C29.distinct_paths_unstaged_out",
 ]
 TRUSTED = [
     "modelled, not verified: str.split('\\n'), '\\n'.join, str(int), str.strip (CPython's White_Space table), "
@@ -43,6 +46,8 @@ ASSUMPTIONS = [
     "command texts are valid UTF-8 without NUL (bash drops NUL bytes in here-documents) and without lone surrogates",
     "eof_prefix is alphanumeric in the bash tie and in heredoc_roundtrip (script() always uses the default 'EOF'); "
     "the get_command_eof theorems hold for every prefix",
+    "end-to-end runs without tempdir use pairs whose two sides are different files or the same string (GNU cp refuses to copy a "
+    "file onto itself, so a pair spelled differently but naming one file in the command's cwd fails in the unchanged code too)",
     "staging paths are local paths (no URL scheme, no newline): cloud file systems render other copy commands and are "
     "outside the model; every leaf of `inputs` is a Staging object (anything else raises AttributeError in the code and "
     "in the model); sets among inputs/outputs have at most one element (iteration order of object sets is address based)",
@@ -55,8 +60,11 @@ RULE = ("four case families from one PRNG: (text) command texts from a line gram
         "must be prepare_command(text)+'\\n' and equal the model's here-document reader; (script) generated nested "
         "inputs/outputs of File/IFile/ContentFile/Dir/Staging* leaves -> script(...) call expression (full command, input "
         "args, preprocessed outputs) and postprocess_script compared with the model, plus ordering/shape oracles; "
-        "(e2e) script() run by a real Scheduler in a temp dir with local staging pairs: remote files, stdout and the "
-        "returned structure checked. distinct = distinct case payloads; trivial = single-line text without blanks/EOF")
+        "(e2e) script() run by a real Scheduler in a temp dir with local file and directory staging pairs, with and without "
+        "tempdir=True, incl. pairs spelled differently on the two sides (relative vs absolute, './x' vs 'x') that name the same "
+        "file only in the scheduler's cwd: the command itself tests that every input is present in its working directory and no "
+        "output is yet at its remote path, afterwards remote files, stdout and the returned structure are checked; for (script) "
+        "the expected copy commands are derived by the harness from the directory the command runs in, not from render_stage. distinct = distinct case payloads; trivial = single-line text without blanks/EOF")
 LEVEL_TEXT = ("Proved in Lean (all full strength, for every command text / prefix / nested structure): get_command_eof terminates "
               "within len(lines)+1 iterations and returns the first candidate that is not a line of the command "
               "(eof_fuel_suffices, eof_not_a_line, eof_is_first_free_candidate); a bash here-document reader applied to "
@@ -64,7 +72,9 @@ LEVEL_TEXT = ("Proved in Lean (all full strength, for every command text / prefi
               "= strip∘dedent, keeps a shebang and otherwise prepends the default shell (shebang_kept, default_shell_prepended, "
               "prepared_has_interpreter); in script()'s command_parts every input's stage command precedes the wrapped command "
               "and every output's unstage command follows it (stage_before_unstage_after, every_input_staged, "
-              "every_output_unstaged); the value returned by postprocess_script has the shape of `outputs` with staging pairs "
+              "every_output_unstaged); a pair renders no copy command exactly when its two path strings are equal, every other pair is "
+              "copied in / out with or without tempdir (no_command_iff_same_string, distinct_paths_staged_in, "
+              "distinct_paths_unstaged_out); the value returned by postprocess_script has the shape of `outputs` with staging pairs "
               "↦ remote file, File('-') ↦ stdout, self-staged Files ↦ themselves (output_shape, output_leaves); and the second "
               "prepare_command that script_task applies to the full command leaves the user's command inside the here-document "
               "unchanged (second_prepare_keeps_command). Tied to /repo by byte-exact comparison of the model with the real "
@@ -759,6 +769,8 @@ def replay(ctx, case):
     c = case.get("case") or {}
     print("replay case:", str(c)[:500])
     tmp = tempfile.mkdtemp(prefix="verif-c29-")
+    saved_tempdir = tempfile.tempdir
+    tempfile.tempdir = tmp
     try:
         if isinstance(c, dict) and c.get("kind") == "text":
             check_texts(ctx, [c["text"]])
@@ -769,4 +781,5 @@ def replay(ctx, case):
         else:
             run(ctx)
     finally:
+        tempfile.tempdir = saved_tempdir
         shutil.rmtree(tmp, ignore_errors=True)
